@@ -84,3 +84,14 @@ check("C07", "model_checking",
       "trusted: TLC; the gate controller (releases only when every busy worker is parked); events totally ordered under one harness lock; "
       "interleavings finer than objective-call / store-sync granularity are only sampled by the stress runs",
       "TLC exhaustive interleaving model + TLC-emitted schedules steered onto real threads + TLC trace validation", "DESIGN.md 5/C07")
+
+check("C14", "model_checking",
+      "RobustEval.tla: the evaluator's work lists as a state machine (EvaluateBatch: base evaluation, 2n resp. n neighbours, post-processing "
+      "of everything on the list, reset); TLC checks cost length = user objectives (+1), processed exactly once, neighbour count, call budget "
+      "for 1-3 parameters x 1-2 objectives x up to 4 (6) batches, and that the named deviation NoReset (the pinned tree's defect) violates "
+      "CostLen. Sequences of 1-4 batches through Algorithm.evaluate with both evaluators and whole NSGA-II / eps-MOEA runs with the "
+      "worst-case evaluator are recorded; after EVERY batch ALL designs seen so far are validated by RobustTrace: lengths, neighbour "
+      "displacement (axis, sign, tolerance), exact sum of |differences| on an integer lattice, feature and signed-cost slots, objective calls "
+      "per design unchanged for earlier designs, forward-difference gradient as an exact integer identity.",
+      "trusted: TLC; integer lattice objective (exact sums); call attribution by exact vectors with disjoint neighbourhoods",
+      "TLC model with named deviation + TLC trace validation of every batch of real evaluator runs", "DESIGN.md 5/C14")
